@@ -123,8 +123,17 @@ def run(ctx: Ctx) -> None:
         "into a zero-filled scratch). D2.3 scratch arrays have n_items "
         "cells and are reset. D2.4 the cross-objective bin-count guard "
         "exists. D2.5 instance matrix entries pass through int() before "
-        "arithmetic in the pure-Python bound methods. Not decided: skyline "
-        "areas, validity of lower_bound(), dominance.")
+        "arithmetic in the pure-Python bound methods. D2.6 both skyline "
+        "sweeps compute the area under the skyline of a bin: the scan step "
+        "is compared with the fold 'running strict maximum of top over the "
+        "items of the bin covering the position, with the right edge of "
+        "the maximal one; running minimum of the starts beyond the "
+        "position' on every outcome of its comparisons, the segment ends "
+        "at min(use_right, next_left), adds (length x height) and the "
+        "sweep continues there from 0 until the bin width; the kernels "
+        "receive the instance's bin_width / bin_height in this order. Not "
+        "decided: validity of lower_bound() (for the objectives with a "
+        "secondary term), dominance between packings.")
     for rid, txt in (
             ("D2.1", "value = S*(B-1)+T; S agrees across kernel / "
              "to_bin_count / upper_bound / lower_bound"),
@@ -146,6 +155,13 @@ def run(ctx: Ctx) -> None:
     for c in classes:
         _check_class(ctx, c, idx_bin)
     _guard(ctx)
+    ctx.rule("D2.6", "the skyline sweeps compute the area under the "
+             "skyline")
+    OBJ = "moptipyapps.binpacking2d.objectives."
+    _skyline_sweep(ctx, OBJ + "bin_count_and_last_skyline",
+                   "bin_count_and_last_skyline", False)
+    _skyline_sweep(ctx, OBJ + "bin_count_and_lowest_skyline",
+                   "bin_count_and_lowest_skyline", True)
     ctx.assumptions += [
         "Packing shape contract: len(y) = instance.n_items, 6 columns",
         "N1: kernel integer scalars are 64 bit",
@@ -206,6 +222,14 @@ def _check_class(ctx: Ctx, cls: ClassInfo, idx_bin: int) -> None:
                                construct=f"scratch size {cls.name}")
                     else:
                         env.vars[p] = v
+                        if p in ("bin_width", "bin_height"):
+                            okb = isinstance(v, Poly) and show(v).endswith(p)
+                            ctx.ob("D2.1", evm, a, okb,
+                                   f"kernel parameter `{p}` receives "
+                                   f"{show(v) if isinstance(v, Poly) else v}"
+                                   + ("" if okb else f": not the instance's "
+                                      f"{p}"),
+                                   construct=f"{cls.name} passes {p}")
             value = ev.block(env, func_body(kern)).returned
         else:
             ev = make_evaluator(repo, evm)
@@ -458,3 +482,213 @@ def _guard(ctx: Ctx) -> None:
         ok = carried_ok
     ctx.ob("D2.4", fi, hit.node if hit else fi.node, ok, detail,
            construct="bin-count agreement guard")
+
+
+# ------------------------------------------------------------------ D2.6
+def _skyline_sweep(ctx: Ctx, modname: str, fname: str, per_bin: bool) \
+        -> None:
+    """The sweep computes the area under the skyline of one bin.
+
+    Argument (checked pieces in brackets): at position c the inner scan
+    folds over all rows of the bin [F0] the running strict maximum of `top`
+    among the items with left <= c < right together with the right edge of
+    the item attaining it [F1, step-function agreement], and the running
+    minimum of `left` among the items with c < left [F2]; all items covering
+    a point x in [c, e), e = min(use_right, next_left) [F3], also cover c
+    (none starts in (c, x]) and the maximal one reaches beyond x, hence the
+    skyline is use_top on [c, e) and the segment adds (e - c) * use_top
+    [F4]; the sweep continues at e > c [F5] from 0 until the bin width [F6].
+    """
+    from sa.casesplit import Splitter, describe
+    from sa.kern import make_evaluator
+    from sa.symterm import Env, ite
+    repo = ctx.repo
+    fi = repo.func(modname, fname)
+    yp, wp, hp = fi.params[:3]
+    body = func_body(fi)
+    problems: list[str] = []
+
+    def src(n: ast.AST) -> str:
+        return ast.unparse(n).replace(" ", "")
+    scope: list[ast.stmt] = body
+    bin_src = None
+    if per_bin:
+        bl = next((s for s in body if isinstance(s, ast.For)), None)
+        if bl is None or not isinstance(bl.target, ast.Name):
+            problems.append("no loop over the bins")
+        else:
+            scope = bl.body
+            bin_src = bl.target.id
+            if src(bl.iter) not in ("range(1,bins+1)", "range(1,1+bins)"):
+                problems.append("the bins are not enumerated as 1..bins")
+    sweep = next((s for s in scope if isinstance(s, ast.While)), None)
+    if sweep is None:
+        ctx.ob("D2.6", fi, fi.node, False, "no sweep loop",
+               construct=f"skyline sweep of {fname}")
+        return
+    # F6: while c < W, c starts at 0
+    t = sweep.test
+    cn = t.left.id if isinstance(t, ast.Compare) and isinstance(
+        t.left, ast.Name) else None
+    if cn is None or src(t) != f"{cn}<{wp}":
+        problems.append("the sweep does not run while position < bin width")
+    pre = scope[:scope.index(sweep)]
+    c0 = [s for s in pre if isinstance(s, (ast.Assign, ast.AnnAssign))
+          and src(s.targets[0] if isinstance(s, ast.Assign)
+                  else s.target) == cn]
+    if not c0 or repo.const(fi.module, c0[-1].value) != 0:
+        problems.append("the sweep does not start at x = 0")
+    scan = next((s for s in sweep.body if isinstance(s, ast.For)), None)
+    if scan is None or src(scan.iter) not in (f"range(len({yp}))",
+                                               "range(len_y)"):
+        problems.append("the scan does not visit every row of the packing")
+    if problems or scan is None or cn is None:
+        ctx.ob("D2.6", fi, sweep, False, "; ".join(problems),
+               construct=f"skyline sweep of {fname}")
+        return
+    iv = scan.target.id
+    ev = make_evaluator(repo, fi)
+    ev.int_transparent = True
+    C = repo.module("moptipyapps.binpacking2d.packing")
+    IDX = {k: repo.const(C, ast.Name(id=k, ctx=ast.Load())) for k in (
+        "IDX_BIN", "IDX_LEFT_X", "IDX_RIGHT_X", "IDX_TOP_Y")}
+    W, c = Poly.var("W"), Poly.var("c")
+    ut, ur, nl = Poly.var("use_top"), Poly.var("use_right"), \
+        Poly.var("next_left")
+    i = Poly.var("i")
+    ub = Poly.var("use_bin")
+    # names of the three scan variables: assigned in the scan body
+    assigned = []
+    for s in ast.walk(scan):
+        if isinstance(s, ast.Assign) and isinstance(
+                s.targets[0], ast.Name) and s.targets[0].id not in assigned:
+            assigned.append(s.targets[0].id)
+    init_stmts = sweep.body[:sweep.body.index(scan)]
+    env = Env()
+    env.vars[yp] = ("array", "y")
+    env.vars.update({wp: W, cn: c, iv: i})
+    env.vars[bin_src or "use_bin"] = ub
+    if not per_bin:
+        # F0: the bin looked at is the last one
+        ubd = [s for s in pre if isinstance(s, (ast.Assign, ast.AnnAssign))
+               and src(s.targets[0] if isinstance(s, ast.Assign)
+                       else s.target) == "use_bin"]
+        if not ubd or src(ubd[-1].value) not in (
+                f"max({yp}[:,IDX_BIN])", f"int({yp}[:,IDX_BIN].max())",
+                "bins"):
+            problems.append("the swept bin is not the last bin")
+    try:
+        e0 = env
+        for s in init_stmts:
+            e0 = ev.stmt(e0, s)
+    except Unsupported as u:
+        problems.append(f"cannot normalise the scan initialisation: {u}")
+        e0 = None
+    roles: dict[str, str] = {}
+    if e0 is not None:
+        zero = Poly.const(0)
+        for nm in assigned:
+            v = e0.vars.get(nm)
+            if v == zero:
+                roles["top"] = nm
+        cand = [nm for nm in assigned if e0.vars.get(nm) == W]
+        # which of the W-initialised variables is the next-left minimum?
+        for nm in cand:
+            for s in ast.walk(scan):
+                if isinstance(s, ast.Assign) and src(s.targets[0]) == nm:
+                    if "LEFT" in src(s.value) or src(s.value) == "left":
+                        roles["next"] = nm
+                    else:
+                        roles["right"] = nm
+        if set(roles) != {"top", "right", "next"}:
+            problems.append("the scan does not start from (height 0, right "
+                            "= W, next start = W)")
+    if not problems:
+        env2 = e0.copy()
+        env2.vars[roles["top"]] = ut
+        env2.vars[roles["right"]] = ur
+        env2.vars[roles["next"]] = nl
+        try:
+            out = ev.block(env2, scan.body)
+        except Unsupported as u:
+            out = None
+            problems.append(f"cannot normalise the scan step: {u}")
+        if out is not None:
+            def cell(col: str) -> Poly:
+                return Poly.atom(("cell", "y", (i, Poly.const(IDX[col]))))
+            b, l, r, tp = (cell(k) for k in ("IDX_BIN", "IDX_LEFT_X",
+                                             "IDX_RIGHT_X", "IDX_TOP_Y"))
+            in_bin = ("eq", *sorted((b, ub), key=lambda p: repr(p.key())))
+            covers = ("and", ("le", l, c), ("lt", c, r), ("lt", ut, tp))
+            ref_t = ite(in_bin, ite(covers, tp, ut), ut)
+            ref_r = ite(in_bin, ite(covers, r, ur), ur)
+            ref_n = ite(in_bin, ite(("and", ("lt", c, l), ("lt", l, nl)),
+                                    l, nl), nl)
+            sp = Splitter()
+            for what, g, rf in (
+                    ("the running maximum height", out.vars.get(
+                        roles["top"]), ref_t),
+                    ("the right edge of the highest covering item",
+                     out.vars.get(roles["right"]), ref_r),
+                    ("the next start of an item", out.vars.get(
+                        roles["next"]), ref_n)):
+                try:
+                    for facts, (a_, b_), trail in sp.cases((g, rf)):
+                        if not sp.equal(a_, b_, facts):
+                            problems.append(
+                                f"[{describe(trail)[:200]}] {what} becomes "
+                                f"{show(a_)[:80]}, the sweep needs "
+                                f"{show(b_)[:80]}")
+                            break
+                except Unsupported as u:
+                    problems.append(f"{what}: {u}")
+            ctx.count("sweep_step_cases", sp.n_cases)
+        # F3-F5 after the scan
+        post = sweep.body[sweep.body.index(scan) + 1:]
+        env3 = e0.copy()
+        A = Poly.var("A")
+        acc = next((s.target.id for s in post if isinstance(
+            s, ast.AugAssign) and isinstance(s.target, ast.Name)), None)
+        env3.vars.update({roles["top"]: ut, roles["right"]: ur,
+                          roles["next"]: nl})
+        if acc is None:
+            problems.append("no area accumulator after the scan")
+        else:
+            env3.vars[acc] = A
+            try:
+                for s in post:
+                    env3 = ev.stmt(env3, s)
+                e_ = Poly.atom(("app", "min", tuple(sorted(
+                    (ur, nl), key=repr))))
+                gotA, gotc = env3.vars.get(acc), env3.vars.get(cn)
+
+                def canon(p: Any) -> Any:
+                    if not isinstance(p, Poly):
+                        return p
+                    sub = {}
+                    for a in p.atoms():
+                        if a[0] == "app" and a[1] == "min":
+                            sub[a] = Poly.atom(("app", "min", tuple(
+                                sorted(a[2], key=repr))))
+                    return p.subst(sub) if sub else p
+                if canon(gotA) != A + (e_ - c) * ut:
+                    problems.append(
+                        f"a segment adds {show(canon(gotA) - A)[:100]}, not "
+                        "(min(use_right, next_left) - position) * height")
+                if canon(gotc) != e_:
+                    problems.append("the sweep does not continue at "
+                                    "min(use_right, next_left)")
+            except Unsupported as u:
+                problems.append(f"cannot normalise the segment update: {u}")
+            a0 = [s for s in pre if isinstance(s, (ast.Assign, ast.AnnAssign))
+                  and src(s.targets[0] if isinstance(s, ast.Assign)
+                          else s.target) == acc]
+            if not a0 or repo.const(fi.module, a0[-1].value) != 0:
+                problems.append("the area does not start at 0")
+    ctx.ob("D2.6", fi, sweep, not problems,
+           f"{fname}: the sweep adds, segment by segment, (segment length) "
+           "x (greatest top among the items of the bin covering it); scan "
+           "step, segment end, accumulation and continuation agree with "
+           "the skyline definition on every outcome of their comparisons"
+           if not problems else "; ".join(dict.fromkeys(problems)),
+           construct=f"skyline sweep of {fname}")
